@@ -18,6 +18,15 @@ struct Expect { int n = 0; std::vector<std::array<int, 2>> edges; std::vector<do
 
 static std::string esc(const std::string &s) { std::string o; for (char c : s) { if (c == '\n') o += "\\n"; else if (c == '"' || c == '\\') { o += ' '; } else o += c; } return o; }
 
+static uint64_t g_digest = 1469598103934665603ULL;
+static void dig(uint64_t x) { for (int i = 0; i < 8; i++) { g_digest ^= (x >> (8 * i)) & 0xff; g_digest *= 1099511628211ULL; } }
+static void digest_graph(const G &g, bool threw) {
+    dig(threw); if (threw) return;
+    dig(boost::num_vertices(g)); dig(boost::num_edges(g));
+    auto wm = boost::get(boost::edge_weight, g);
+    for (auto er = boost::edges(g); er.first != er.second; ++er.first) { auto e = *er.first; dig(boost::source(e, g)); dig(boost::target(e, g)); double w = wm[e]; uint64_t b; memcpy(&b, &w, 8); dig(b); }
+}
+
 static Verdict check_text(const std::string &text, const Expect &ex) {
     G g;
     FILE *fp = fmemopen((void*) text.data(), text.size(), "r");
@@ -26,6 +35,7 @@ static Verdict check_text(const std::string &text, const Expect &ex) {
     try { parmcb::read_dimacs_from_file(fp, g); }
     catch (std::system_error &) { threw = true; }
     fclose(fp);
+    digest_graph(g, threw);
     if (threw != ex.error) return {"dimacs-error", threw ? "raised an error for a text naming only declared vertices" : "no error although an undeclared vertex is named"};
     if (threw) return {};
     if ((int) boost::num_vertices(g) != ex.n) return {"dimacs-vertices", "vertex count " + std::to_string(boost::num_vertices(g)) + " != declared " + std::to_string(ex.n)};
@@ -136,6 +146,7 @@ int main(int argc, char **argv) {
             }
         }
     }
+    { char buf[64]; snprintf(buf, sizeof buf, "VP-DIGEST %016llx", (unsigned long long) g_digest); std::cout << buf << std::endl; }
     st.print("e3_dimacs", false,
             "grammar enumerator: n<=4 declared vertices, <=3 (thorough 4) edge lines over (endpoints incl. the undeclared ids n+1, 0 and -1) x {e,a} x weight forms {omitted,5,2.5,-3,0,17,0.125}, exhaustive for <=1 line and strided beyond, x 4 comment placements x {final newline, none}; predicates on every multigraph (loops allowed) with <=4 vertices and <=4 (5) edges; distinct by text",
             std::string("maxlines=") + std::to_string(maxlines) + " maxe=" + std::to_string(maxe));
